@@ -147,6 +147,13 @@ pub fn c08(c: &Case, second: Option<&Rec>, expect_second: bool, rep: &mut Report
     }
     let outs = outputs(end);
     // edited module: its output must be a fixpoint too
+    if let (Some(a), Some(b)) = (end.get("out.gc"), end.get("out.gc-fix")) {
+        rep.count("gc-outputs-round-tripped", 1);
+        if a != b {
+            let diff = describe_diff(a, b);
+            rep.violation(c, &format!("C08/fixpoint-of-gc-output/{}", diff.0), &format!("re-parsing the output emitted after the GC pass and emitting again does not reproduce it: {}", diff.1), &[("out.gc.wasm", a), ("out.gc-fix.wasm", b)]);
+        }
+    }
     if let (Some(a), Some(b)) = (end.get("out.addimp"), end.get("out.addimp-fix")) {
         rep.count("compared-fixpoint-of-edited-output", 1);
         if a != b {
